@@ -106,7 +106,7 @@ structure GIh (Kn : String → Prop) (ρ : Env) (σ0 : FState) (s0 : CState) (H 
   freeNd : s.qc.free.Nodup
   freeAnc : ∀ q ∈ s.qc.free, q ∈ s.qc.anc
   keptNF : ∀ k ∈ s.qc.kept, k ∉ s.qc.free
-  marks : ∀ m ∈ s.qc.marked, m ∈ s.qc.anc ∧ m ∉ s.qc.kept ∧ ¬ Avail s m ∧ TgtL s0 s m
+  marks : ∀ m ∈ s.qc.marked, m ∈ s.qc.anc ∧ m ∉ s.qc.kept ∧ ¬ Avail s m ∧ (¬ H m → TgtL s0 s m)
   ancOld : ∀ a ∈ s.qc.anc, a ∈ s.qc.kept ∨ Avail s0 a
 
 abbrev GI (Kn : String → Prop) (ρ : Env) (σ0 : FState) (s0 s : CState) : Prop :=
@@ -183,7 +183,10 @@ theorem TgtL.congr {s s' : CState} {q : Nat} (h : s'.qc.gates = s.qc.gates) (ht 
 
 theorem GIh.monoH {H H' : Nat → Prop} {s : CState} (gi : GIh Kn ρ σ0 s0 H s) (h : ∀ q, H q → H' q) :
     GIh Kn ρ σ0 s0 H' s :=
-  { gi with cache := fun p hp hn => gi.cache p hp (fun hh => hn (h _ hh)) }
+  { gi with
+    cache := fun p hp hn => gi.cache p hp (fun hh => hn (h _ hh))
+    marks := fun m hm => ⟨(gi.marks m hm).1, (gi.marks m hm).2.1, (gi.marks m hm).2.2.1,
+      fun hn => (gi.marks m hm).2.2.2 (fun hh => hn (h _ hh))⟩ }
 
 theorem GIh.monoKn {Kn' : String → Prop} {H : Nat → Prop} {s : CState} (gi : GIh Kn ρ σ0 s0 H s)
     (h : ∀ n, Kn' n → Kn n) : GIh Kn' ρ σ0 s0 H s :=
@@ -191,8 +194,23 @@ theorem GIh.monoKn {Kn' : String → Prop} {H : Nat → Prop} {s : CState} (gi :
 
 /-- a hole on a qubit that has no cache entry can be dropped -/
 theorem GIh.close {H : Nat → Prop} {s : CState} {t : Nat} (gi : GIh Kn ρ σ0 s0 (fun q => H q ∨ q = t) s)
-    (hnc : ∀ p ∈ s.expq, p.2 ≠ t) : GIh Kn ρ σ0 s0 H s :=
-  { gi with cache := fun p hp hn => gi.cache p hp (fun hh => hh.elim hn (hnc p hp)) }
+    (hnc : ∀ p ∈ s.expq, p.2 ≠ t) (htg : t ∈ s.qc.marked → TgtL s0 s t) : GIh Kn ρ σ0 s0 H s :=
+  { gi with
+    cache := fun p hp hn => gi.cache p hp (fun hh => hh.elim hn (hnc p hp))
+    marks := fun m hm => ⟨(gi.marks m hm).1, (gi.marks m hm).2.1, (gi.marks m hm).2.2.1, fun hn => by
+      by_cases hmt : m = t
+      · exact hmt ▸ htg (hmt ▸ hm)
+      · exact (gi.marks m hm).2.2.2 (fun hh => hh.elim hn hmt)⟩ }
+
+/-- a hole on a qubit that has no cache entry and is a target can be removed from a larger hole -/
+theorem GIh.close' {H : Nat → Prop} {s : CState} {t : Nat} (gi : GIh Kn ρ σ0 s0 (fun q => H q ∨ q = t) s)
+    (hnc : ∀ p ∈ s.expq, p.2 ≠ t) (htg : TgtL s0 s t) : GIh Kn ρ σ0 s0 (fun q => H q ∧ q ≠ t) s :=
+  { gi with
+    cache := fun p hp hn => gi.cache p hp (fun hh => hh.elim (fun h1 => hn ⟨h1, hnc p hp⟩) (hnc p hp))
+    marks := fun m hm => ⟨(gi.marks m hm).1, (gi.marks m hm).2.1, (gi.marks m hm).2.2.1, fun hn => by
+      by_cases hmt : m = t
+      · exact hmt ▸ htg
+      · exact (gi.marks m hm).2.2.2 (fun hh => hh.elim (fun h1 => hn ⟨h1, hmt⟩) hmt)⟩ }
 
 /-- the invariant after one X/CX/MCX gate on `cs ++ [t]`: the controls are in use, the target is a qubit of the
 statement that is in use, is not the qubit of a known name, and has not been read yet (or is marked).  The
@@ -281,7 +299,8 @@ theorem gate_gi {H : Nat → Prop} {cls : GClass} {cs : List Nat} {t : Nat} {u :
   · intro m hm
     rw [ha.marked] at hm
     obtain ⟨m1, m2, m3, m4⟩ := gi.marks m hm
-    exact ⟨by rw [ha.anc]; exact m1, by rw [ha.kept]; exact m2, fun h' => m3 ((hav _).mp h'), htk _ m4⟩
+    exact ⟨by rw [ha.anc]; exact m1, by rw [ha.kept]; exact m2, fun h' => m3 ((hav _).mp h'),
+      fun hn => htk _ (m4 (fun hh => hn (Or.inl hh)))⟩
 
 /-- the frame of one gate whose target is `t` -/
 theorem gate_fr {cls : GClass} {cs : List Nat} {t : Nat} {s s' : CState} {g : AGate}
@@ -312,7 +331,9 @@ theorem GIh.of_quiet {H H' : Nat → Prop} {s s' : CState} (gi : GIh Kn ρ σ0 s
     (hgt : s'.qc.gates = s.qc.gates) (hgc : s'.qc.gatesComputed = s.qc.gatesComputed)
     (hn : s'.qc.numQubits = s.qc.numQubits) (hf : s'.qc.free = s.qc.free) (ha : s'.qc.anc = s.qc.anc)
     (hq : s'.qc.qmap = s.qc.qmap) (hk : s'.qc.kept = s.qc.kept)
-    (hm : ∀ m ∈ s'.qc.marked, m ∈ s.qc.marked ∨ (m ∈ s.qc.anc ∧ m ∉ s.qc.kept ∧ ¬ Avail s m ∧ TgtL s0 s m))
+    (hm : ∀ m ∈ s'.qc.marked, m ∈ s.qc.marked ∨
+      (m ∈ s.qc.anc ∧ m ∉ s.qc.kept ∧ ¬ Avail s m ∧ (¬ H' m → TgtL s0 s m)))
+    (hmH : ∀ m ∈ s.qc.marked, ¬ H' m → H m → TgtL s0 s m)
     (hmk : ∀ m ∈ s.qc.marked, m ∈ s'.qc.marked)
     (hc : ∀ p ∈ s'.expq, ¬ H' p.2 → ¬ Avail s p.2 ∧ cur σ0 s p.2 = p.1.eval ρ ∧
       (p.2 ∈ s.qc.anc → p.2 ∉ s.qc.kept → TgtL s0 s p.2)) :
@@ -341,10 +362,13 @@ theorem GIh.of_quiet {H H' : Nat → Prop} {s s' : CState} (gi : GIh Kn ρ σ0 s
   · intro m hm'
     rcases hm m hm' with h | ⟨h1, h2, h3, h4⟩
     · obtain ⟨m1, m2, m3, m4⟩ := gi.marks m h
-      exact ⟨by rw [ha]; exact m1, by rw [hk]; exact m2, fun h' => m3 ((hav _).mp h'),
-        by unfold TgtL; rw [hL]; exact m4⟩
+      refine ⟨by rw [ha]; exact m1, by rw [hk]; exact m2, fun h' => m3 ((hav _).mp h'), fun hn => ?_⟩
+      unfold TgtL; rw [hL]
+      by_cases hH : H m
+      · exact hmH m h hn hH
+      · exact m4 hH
     · exact ⟨by rw [ha]; exact h1, by rw [hk]; exact h2, fun h' => h3 ((hav _).mp h'),
-        by unfold TgtL; rw [hL]; exact h4⟩
+        fun hn => by unfold TgtL; rw [hL]; exact h4 hn⟩
 
 /-- the frame of such a step; `C` the qubits it marks or caches -/
 theorem Fr.of_quiet {C : Nat → Prop} {s s' : CState}
@@ -374,7 +398,7 @@ theorem event_gi {H : Nat → Prop} {e : String} {u : Unit} {s s' : CState} (h :
     (gi : GIh Kn ρ σ0 s0 H s) : GIh Kn ρ σ0 s0 H s' ∧ Fr Kn σ0 s0 s s' NoN NoN NoN ∧ cur σ0 s' = cur σ0 s := by
   have := event_run h; subst this
   exact ⟨gi.of_quiet (gi.good.of_eq rfl rfl rfl rfl rfl rfl rfl rfl rfl) rfl rfl rfl rfl rfl rfl rfl
-      (fun m hm => Or.inl hm) (fun m hm => hm) (fun p hp hn => gi.cache p hp hn),
+      (fun m hm => Or.inl hm) (fun _ _ hn hh => absurd hh hn) (fun m hm => hm) (fun p hp hn => gi.cache p hp hn),
     Fr.of_quiet rfl rfl rfl rfl rfl rfl (fun m hm => Or.inl hm) (fun m hm => hm) (fun p hp => Or.inl hp), rfl⟩
 
 /-- a qubit that `markAll` marks is not a kept ancilla -/
@@ -403,7 +427,7 @@ theorem markAll_notKept : ∀ (ws : List Nat) {u : Unit} {s s' : CState}, (markA
 statement) -/
 theorem markAll_gi {H : Nat → Prop} {ws : List Nat} {u : Unit} {s s' : CState}
     (h : (markAll ws).run s = .ok (u, s')) (gi : GIh Kn ρ σ0 s0 H s)
-    (hws : ∀ w ∈ ws, ¬ Avail s w ∧ (w ∈ s.qc.anc → w ∉ s.qc.kept → TgtL s0 s w)) :
+    (hws : ∀ w ∈ ws, ¬ Avail s w ∧ (w ∈ s.qc.anc → w ∉ s.qc.kept → ¬ H w → TgtL s0 s w)) :
     GIh Kn ρ σ0 s0 H s' ∧ Fr Kn σ0 s0 s s' NoN NoN (· ∈ ws) ∧ cur σ0 s' = cur σ0 s ∧
       (∀ m ∈ ws, m ∈ s.qc.anc → m ∉ s.qc.kept → m ∈ s'.qc.marked) ∧ s'.qc.anc = s.qc.anc ∧ s'.expq = s.expq ∧
       s'.qc.free = s.qc.free ∧ s'.qc.numQubits = s.qc.numQubits := by
@@ -418,7 +442,8 @@ theorem markAll_gi {H : Nat → Prop} {ws : List Nat} {u : Unit} {s s' : CState}
       · refine Or.inr ⟨h1, h2, fun hk => ?_⟩
         -- a kept ancilla is never marked: `Good` does not say so, use the run of `markAll`
         exact markAll_notKept ws h m hm hm0 hk
-  refine ⟨gi.of_quiet hg b1 b2 b3 b4 b5 b6 bk ?_ b8 (fun p hp hn => gi.cache p (by rw [← b0]; exact hp) hn),
+  refine ⟨gi.of_quiet hg b1 b2 b3 b4 b5 b6 bk ?_ (fun _ _ hn hh => absurd hh hn) b8
+      (fun p hp hn => gi.cache p (by rw [← b0]; exact hp) hn),
     Fr.of_quiet b1 b3 b4 b5 b6 bk (fun m hm => (hkept m hm).imp id (fun x => x.1)) b8
       (fun p hp => Or.inl (by rw [← b0]; exact hp)), cur_congr b1, b9, b5, b0, b4, b3⟩
   intro m hm
@@ -462,10 +487,15 @@ theorem expqSet_gi {H : Nat → Prop} {e : BExp} {q : Nat} {u : Unit} {s s' : CS
   have hg : Good s' := (expqSet_ok (B := fun _ => False) h gi.good (notAvail_lt hq)).good
   have hcur : cur σ0 s' = cur σ0 s := by unfold cur; rw [hqc]
   refine ⟨gi.of_quiet hg (by rw [hqc]) (by rw [hqc]) (by rw [hqc]) (by rw [hqc]) (by rw [hqc]) (by rw [hqc])
-      (by rw [hqc]) (fun m hm => Or.inl (by rw [← hqc]; exact hm)) (fun m hm => by rw [hqc]; exact hm) ?_,
+      (by rw [hqc]) (fun m hm => Or.inl (by rw [← hqc]; exact hm)) ?_ (fun m hm => by rw [hqc]; exact hm) ?_,
     Fr.of_quiet (by rw [hqc]) (by rw [hqc]) (by rw [hqc]) (by rw [hqc]) (by rw [hqc]) (by rw [hqc])
       (fun m hm => Or.inl (by rw [← hqc]; exact hm)) (fun m hm => by rw [hqc]; exact hm)
       (fun p hp => (hk p hp).elim (fun x => Or.inl x.1) (fun x => Or.inr (by rw [x]))), hcur, hqc, ?_⟩
+  · intro m hm hn hh
+    rcases hh with hh | hh
+    · exact absurd hh hn
+    · obtain ⟨m1, m2, _, _⟩ := gi.marks m hm
+      exact hh ▸ ht (hh ▸ m1) (hh ▸ m2)
   · intro p hp hn
     rcases hk p hp with ⟨h1, h2⟩ | rfl
     · exact gi.cache p h1 (fun hh => hh.elim hn h2)
@@ -545,7 +575,7 @@ theorem getFreeAncilla_gi {a : Nat} {s s' : CState}
     · intro m hm
       rw [hmk] at hm
       obtain ⟨m1, m2, m3, m4⟩ := gi.marks m hm
-      exact ⟨hanck m m1, by rw [hkp]; exact m2, fun h' => m3 (hav _ h'), htk _ m4⟩
+      exact ⟨hanck m m1, by rw [hkp]; exact m2, fun h' => m3 (hav _ h'), fun hn => htk _ (m4 hn)⟩
     · intro x hx
       rw [hkp]
       rcases hancs x hx with h' | h'
